@@ -101,6 +101,7 @@ def diff_signature(e, diff):
     return "user-tables-or-rows-differ"
   if "lookup" in tags: return "stale-lookup"
   if "metadata" in tags: return "metadata-cells-differ"
-  if tags & {"data", "trigger"}: return "stored-cells-differ"
+  if "trigger" in tags and "data" not in tags: return "trigger-column-recalculated"
+  if "data" in tags: return "stored-cells-differ"
   if tags & {"formula"}: return "formula-results-differ"
   return "+".join(sorted(tags)) or "unknown"
